@@ -2,6 +2,7 @@ package ref
 
 import (
 	"fmt"
+	ds "github.com/sealdice/dicescript"
 	"sort"
 	"strings"
 )
@@ -97,3 +98,6 @@ func VarsEqual(a, b map[string]string) bool {
 }
 
 var _ = strings.TrimSpace
+
+// CanonV renders a VM value in the same canonical form as the reference values.
+func CanonV(v *ds.VMValue) string { return canonV(v, 0) }
